@@ -113,8 +113,9 @@ def run(ctx: Ctx) -> RuleResult:
         ok = isinstance(it, ast.Subscript) and isinstance(it.slice, ast.Slice) and it.slice.lower is None and it.slice.step is None \
             and norm(it.value) == 'terminals' and not g.ifs
         k = norm(it.slice.upper) if ok else None
-        elt = norm(joins[0].args[0].elt)
-        ok = ok and '(?P<%s>%s)' in elt and '.name' in elt and '.pattern.to_regexp()' in elt
+        from ..exprs import str_template as _stt
+        tt_ = _stt(joins[0].args[0].elt)
+        ok = ok and tt_ is not None and tt_[0] == '(?P<%s>%s)' and len(tt_[1]) == 2 and norm(tt_[1][0]).endswith('.name') and norm(tt_[1][1]).endswith('.pattern.to_regexp()')
     res.ob('%s %s' % (bm.loc(), bm.qual), 'alternation = named groups of terminals[:%s] in list order' % k, ok)
     if not ok:
         res.finding(bm, bm.node, 'the regex alternation is not built from the leading slice of the ordered terminal list, in order', construct='alternation')
@@ -275,7 +276,12 @@ def run(ctx: Ctx) -> RuleResult:
         res.finding(cuf, cuf.node, 'the flag-subset condition for embedding a keyword in its regexp changed', construct='unless-flags')
     uc = repo.func('lark.lexer:UnlessCallback.__call__')
     fm_ = find_pat(uc.body_nodes(), '$r = self.scanner.fullmatch($t.value)')
-    ok = bool(fm_) and has_pat(uc.body_nodes(), 'if $r is not None:\n    $t.type = $r', fm_[0][1])
+    ok = False
+    if fm_:
+        from ..exprs import runs_only_if as _roi
+        r_, t_ = fm_[0][1]['r'], fm_[0][1]['t']
+        sets_ = [a for a in uc.body_nodes() if isinstance(a, ast.Assign) and len(a.targets) == 1 and norm(a.targets[0]) == '%s.type' % t_ and norm(a.value) == r_]
+        ok = len(sets_) == 1 and _roi(sets_[0], ast.parse('%s is not None' % r_, mode='eval').body)
     res.ob('%s %s' % (uc.loc(), uc.qual), 'a token is retyped as the keyword iff the keyword scanner matches its whole value', ok)
     if not ok:
         res.finding(uc, uc.node, 'UnlessCallback no longer retypes exactly on a full match', construct='unless-callback')
@@ -355,7 +361,7 @@ def run(ctx: Ctx) -> RuleResult:
     if not ok:
         res.finding(lx, lx.node, 'the contextual lexer does not pick the lexer by parser_state.position for every token', construct='ctx-select')
     ccl = repo.func('lark.parser_frontends:create_contextual_lexer')
-    ok = has_pat(ccl.body_nodes(), '{$i: list($t.keys()) for $i, $t in $pt.states.items()}')
+    ok = has_pat(ccl.body_nodes(), '{$i: list($t.keys()) for $i, $t in $$pt.states.items()}')
     res.ob('%s %s' % (ccl.loc(), ccl.qual), 'accepted terminals per state are the keys of the parse table row', ok)
     if not ok:
         res.finding(ccl, ccl.node, 'per-state accepted terminals are not read off the parse table', construct='ctx-states')
@@ -429,6 +435,104 @@ def run(ctx: Ctx) -> RuleResult:
         res.finding(ig, ig.node, '_ignore records %s names on some path: a terminal ignored by name is ignored a second time under a fresh '
                     '__IGNORE_n definition with the same pattern (two terminals with one pattern: the collision check and the precedence order '
                     'see a terminal the grammar does not have), or nothing is ignored' % sorted(cs), construct='ignore-once')
+    # ---- %ignore: a node of a variadic kind is unpacked into one name only after its length was tested ----------------------------
+    # (kinds read from the meta-grammar table RULES: K is variadic when one of its productions mentions a helper `_h` that mentions itself)
+    from ..exprs import runs_only_if
+    lgm = repo.module('lark.load_grammar')
+    table = None
+    for st_ in lgm.tree.body:
+        if isinstance(st_, ast.Assign) and len(st_.targets) == 1 and norm(st_.targets[0]) == 'RULES' and isinstance(st_.value, ast.Dict):
+            table = st_.value
+    if table is None:
+        raise AnalysisError('R-LEX-PRECEDENCE: the meta-grammar table RULES of lark.load_grammar is not a dict literal any more')
+    prods = {}
+    for k_, v_ in zip(table.keys, table.values):
+        if isinstance(k_, ast.Constant) and isinstance(k_.value, str) and isinstance(v_, ast.List):
+            prods[k_.value.lstrip('?!')] = [e_.value.split() for e_ in v_.elts if isinstance(e_, ast.Constant) and isinstance(e_.value, str)]
+    variadic = {k_ for k_, ps_ in prods.items() for p_ in ps_ for h_ in p_
+                if h_.startswith('_') and h_.islower() and any(h_ in q_ for q_ in prods.get(h_, []))}
+    if not {'expansions', 'expansion'} <= variadic:
+        raise AnalysisError('R-LEX-PRECEDENCE: expansions/expansion are not read as variadic node kinds from RULES (%s)' % sorted(variadic))
+    n_unp = 0
+    for st_ in ast.walk(ig.node):
+        if not (isinstance(st_, ast.Assign) and len(st_.targets) == 1 and isinstance(st_.targets[0], (ast.Tuple, ast.List))
+                and len(st_.targets[0].elts) == 1 and not isinstance(st_.targets[0].elts[0], ast.Starred)
+                and isinstance(st_.value, ast.Attribute) and st_.value.attr == 'children' and isinstance(st_.value.value, ast.Name)):
+            continue
+        v_ = st_.value.value.id
+        kinds = [k_ for k_ in sorted(variadic) if runs_only_if(st_, ast.parse('%s.data == %r' % (v_, k_), mode='eval').body)]
+        if not kinds:
+            continue
+        n_unp += 1
+        par_ = st_
+        in_try = False
+        while par_ is not None and par_ is not ig.node:
+            par_ = parent(par_)
+            if isinstance(par_, ast.Try) and par_.handlers:
+                in_try = True
+        ok = in_try or any(runs_only_if(st_, ast.parse(src_ % v_, mode='eval').body)
+                           for src_ in ('len(%s.children) == 1', '1 == len(%s.children)'))
+        res.ob('%s %s' % (ig.loc(st_), ig.qual), 'a %s node is unpacked into one name only where its length was tested to be 1' % kinds[0], ok)
+        if not ok:
+            res.finding(ig, st_, '_ignore unpacks the children of a %r node into a single name without having tested that there is exactly one '
+                        '(the meta-grammar lets the node have any number): `%%ignore A | B` -- a well-formed statement -- makes the grammar loader '
+                        'die with ValueError instead of defining the anonymous terminal' % kinds[0], construct='ignore:unpack-arity',
+                        props=['C01', 'C02', 'C07', 'C14', 'C17'])
+    if n_unp < 1:
+        res.ob('%s %s' % (ig.loc(), ig.qual), '_ignore does not unpack a variadic node into a single name (nothing to test)', True)
+    # ---- widths: (min, max) in that order everywhere ----------------------------------------------------------------------------------------
+    pre = repo.cls('lark.lexer:PatternRE')
+    for prop_, idx_ in (('min_width', 0), ('max_width', 1)):
+        m_ = pre.methods.get(prop_)
+        if m_ is None:
+            raise AnalysisError('R-LEX-PRECEDENCE: PatternRE.%s not found' % prop_)
+        rets_ = [r for r in m_.body_nodes() if isinstance(r, ast.Return) and r.value is not None]
+        okw = len(rets_) == 1 and isinstance(rets_[0].value, ast.Subscript) and norm(rets_[0].value.value).endswith('._get_width()') and norm(rets_[0].value.slice) == str(idx_)
+        res.ob('%s %s' % (m_.loc(), m_.qual), 'PatternRE.%s is component %d of the (min, max) width pair' % (prop_, idx_), okw)
+        if not okw:
+            res.finding(m_, m_.node, 'PatternRE.%s returns %s, expected component %d of _get_width() = (min, max): terminals are ordered by the wrong width'
+                        % (prop_, [norm(r.value) for r in rets_], idx_), construct='width-component:%s' % prop_)
+    gw = repo.func('lark.utils:get_regexp_width')
+    # the regex-module fallback reports "unbounded" with the same constant the sre path uses (sre_parse.MAXWIDTH where it exists)
+    # (the value the fallback returns as the maximum: `int(E)` in the handler of sre's error, E read through a local if there is one)
+    hnd = [h for h in gw.body_nodes() if isinstance(h, ast.ExceptHandler)]
+    gloc = {a.targets[0].id: a.value for a in gw.body_nodes() if isinstance(a, ast.Assign) and len(a.targets) == 1 and isinstance(a.targets[0], ast.Name)}
+    mw = []
+    for h in hnd:
+        for r in ast.walk(h):
+            if isinstance(r, ast.Return) and isinstance(r.value, ast.Tuple) and len(r.value.elts) == 2:
+                e_ = r.value.elts[1]
+                if isinstance(e_, ast.Call) and norm(e_.func) == 'int' and e_.args:
+                    e_ = e_.args[0]
+                if isinstance(e_, ast.Name) and e_.id in gloc:
+                    e_ = gloc[e_.id]
+                mw.append(ast.copy_location(ast.Assign(targets=[ast.Name(id='MAXWIDTH', ctx=ast.Store())], value=e_), r))
+    if mw:
+        okm = all(isinstance(a.value, ast.Call) and norm(a.value.func) == 'getattr' and len(a.value.args) == 3 and norm(a.value.args[0]) == 'sre_parse'
+                  and const_str(a.value.args[1]) == 'MAXWIDTH' for a in mw)
+        res.ob('%s %s' % (gw.loc(), gw.qual), 'the fallback for regex-only patterns reports an unbounded width as sre_parse.MAXWIDTH (when the interpreter has it)', okm)
+        if not okm:
+            res.finding(gw, mw[0], 'the regex-module fallback reports "unbounded" as %s while patterns the standard parser reads report sre_parse.MAXWIDTH: regex-only '
+                        'patterns are ordered below every other unbounded regexp' % norm(mw[0].value), construct='width-unbounded')
+    # every flag of a pattern is applied (no early exit from the wrapping loop)
+    gf = repo.func('lark.lexer:Pattern._get_flags')
+    floops = [l for l in gf.body_nodes() if isinstance(l, ast.For) and norm(l.iter).endswith('.flags')]
+    if len(floops) != 1:
+        raise AnalysisError('R-LEX-PRECEDENCE: Pattern._get_flags: cannot find the loop over the flags')
+    exits_ = [x for x in ast.walk(floops[0]) if isinstance(x, (ast.Return, ast.Break))]
+    okf = not exits_
+    res.ob('%s %s' % (gf.loc(), gf.qual), 'every flag of the pattern is wrapped around the regexp (no early exit)', okf)
+    if not okf:
+        res.finding(gf, exits_[0], 'Pattern._get_flags leaves its loop at the first flag: a pattern with two flags is compiled with one of them', construct='flags-early-exit')
+    # an ignored anonymous terminal has the default priority of any terminal
+    igd = [c for c in ig.body_nodes() if isinstance(c, ast.Call) and norm(c.func) == 'Definition']
+    if igd:
+        okp = all(any(k.arg == 'options' and norm(k.value) == 'TOKEN_DEFAULT_PRIORITY' for k in c.keywords) or (len(c.args) >= 4 and norm(c.args[3]) == 'TOKEN_DEFAULT_PRIORITY') or
+                  (len(c.args) >= 3 and norm(c.args[-1]) == 'TOKEN_DEFAULT_PRIORITY') for c in igd)
+        res.ob('%s %s' % (ig.loc(), ig.qual), 'the terminal made for `%ignore <literal>` gets TOKEN_DEFAULT_PRIORITY', okp)
+        if not okp:
+            res.finding(ig, igd[0], 'the anonymous terminal made for an ignored literal / regexp does not get the default terminal priority (%s): it outranks '
+                        'the grammar\'s own terminals of default priority' % norm(igd[0])[:90], construct='ignore-priority')
     # ---- the configured regexp module ----------------------------------------------------------------------------------------
     # a function that is handed the regexp module to use (self.re / conf.re_module / a parameter) does not reach for the global `re`
     n_cfg = 0
